@@ -411,7 +411,7 @@ func corrupt(t *rapid.T, d *Def, _ []typeRef, usedTypes map[string]bool, lbl str
 			meths = append(meths, &f.Services[si].Methods[mi])
 		}
 	}
-	kinds := []string{"calltypes", "calltypes", "option", "option", "stream", "custom", "rpcopt",
+	kinds := []string{"calltypes", "calltypes", "option", "option", "stream", "custom", "rpcopt", "falseopt",
 		"methname", "methname", "msgname", "msgname", "svcname", "package", "svc2"}
 	kind := rapid.SampledFrom(kinds).Draw(t, lbl+"kind")
 	var m *Method
@@ -445,6 +445,21 @@ func corrupt(t *rapid.T, d *Def, _ []typeRef, usedTypes map[string]bool, lbl str
 						m.CustomReturn = GoCamelCase(ty.name)
 					}
 				}
+			}
+		}
+	case "falseopt":
+		// one or two boolean options that are not set are written out as "= false"
+		if m == nil {
+			return
+		}
+		set := map[string]bool{"rpc": m.RPC, "unicast": m.Unicast, "multicast": m.Multicast, "quorumcall": m.Quorumcall,
+			"correctable": m.Correctable, "async": m.Async, "per_node_arg": m.PerNodeArg}
+		n := rapid.IntRange(1, 2).Draw(t, lbl+"nFalse")
+		for i := 0; i < n; i++ {
+			o := rapid.SampledFrom([]string{"async", "per_node_arg", "async", "per_node_arg", "quorumcall", "multicast", "correctable", "unicast", "rpc"}).Draw(t, fmt.Sprintf("%sfalse%d", lbl, i))
+			if !set[o] {
+				set[o] = true
+				m.False = append(m.False, o)
 			}
 		}
 	case "stream":
